@@ -1510,19 +1510,19 @@ int main(int argc, char** argv) {
   // --- FixedSizeHeap through the global factory
   bfs.push_back(sized_case("FixedSizeHeap sizes {1,9}, 2 threads",
                            "FixedSizeHeap", {1, 9}, 2, B_HEAP_OR_PAGE, fixedG,
-                           4, 7));
+                           4, 9));
   bfs.push_back(sized_case("FixedSizeHeap sizes {7,8,16,24}, 2 threads",
                            "FixedSizeHeap", {7, 8, 16, 24}, 2, B_HEAP_OR_PAGE,
-                           fixedG, 3, 5));
+                           fixedG, 3, 6));
   bfs.push_back(sized_case("FixedSizeHeap size 8, 3 threads", "FixedSizeHeap",
-                           {8}, 3, B_HEAP_OR_PAGE, fixedG, 4, 7));
+                           {8}, 3, B_HEAP_OR_PAGE, fixedG, 4, 9));
   // --- the same heap stack as a fresh object, 2 resp. 3 elements per page
   bfs.push_back(sized_case(
       "SizedHeap (fresh object) element 1MiB-8 (2 per page), 2 threads",
-      "SizedHeap", {(1u << 20) - 8}, 2, B_PAGE, fixedF, 5, 8));
+      "SizedHeap", {(1u << 20) - 8}, 2, B_PAGE, fixedF, 5, 10));
   bfs.push_back(sized_case(
       "SizedHeap (fresh object) element 699048 (3 per page), 2 threads",
-      "SizedHeap", {699048}, 2, B_PAGE, fixedF, 5, 7));
+      "SizedHeap", {699048}, 2, B_PAGE, fixedF, 5, 9));
   // --- Pow_2_BlockHeap, every class boundary
   for (unsigned k = 3; k <= 16; ++k) {
     std::vector<size_t> sz;
@@ -1534,7 +1534,7 @@ int main(int argc, char** argv) {
     bfs.push_back(sized_case("Pow_2_BlockHeap around 2^" + std::to_string(k) +
                                  ", 2 threads",
                              "Pow_2_BlockHeap", sz, 2, B_HEAP_OR_PAGE, pow2, 4,
-                             k == 3 ? 5 : 6));
+                             k == 3 ? 6 : 7));
   }
   // --- bump heaps
   const size_t M = 1u << 20;
@@ -1542,25 +1542,25 @@ int main(int argc, char** argv) {
       "BumpHeap<SystemHeap> (fresh object)", "BumpHeap",
       {1, 8, 9, 4096, M, PAGE - 16, PAGE - 8},
       {1, 8, 9, 4096, M, PAGE - 16, PAGE - 8, PAGE, PAGE + 1}, 1, B_PAGE,
-      [] { return std::unique_ptr<BumpApi>(new BumpDirectApi()); }, 4, 5, 2));
+      [] { return std::unique_ptr<BumpApi>(new BumpDirectApi()); }, 4, 6, 2));
   bfs.push_back(bump_case(
       "VariableSizeHeap (fresh object), 2 threads", "BumpHeap",
       {9, M, PAGE - 8}, {9, M, PAGE - 8, PAGE + 1}, 2, B_PAGE,
-      [] { return std::unique_ptr<BumpApi>(new VarHeapApi()); }, 4, 5, 2));
+      [] { return std::unique_ptr<BumpApi>(new VarHeapApi()); }, 4, 6, 2));
   bfs.push_back(bump_case(
       "PerIterAllocTy over BumpWithMallocHeap (fresh object)",
       "BumpWithMallocHeap",
       {1, 8, 9, 4096, M, PAGE - 16, PAGE - 8, PAGE - 7, 3 * M}, {}, 1,
       B_HEAP_OR_PAGE,
-      [] { return std::unique_ptr<BumpApi>(new IterAllocApi()); }, 4, 5, 2));
+      [] { return std::unique_ptr<BumpApi>(new IterAllocApi()); }, 4, 6, 2));
   // --- page pool
-  bfs.push_back(pagepool_case(2, 4, 6));
+  bfs.push_back(pagepool_case(2, 4, 7));
   // --- per-thread storage
-  bfs.push_back(perbackend_case(5, 8));
-  bfs.push_back(pts_objects_case(4, 6));
+  bfs.push_back(perbackend_case(5, 9));
+  bfs.push_back(pts_objects_case(4, 7));
   // --- large arrays: one page minus a bit / one page plus one element / small
   const size_t FIT = PAGE / sizeof(Elem); // 87381 elements = 2 MiB - 8
-  bfs.push_back(largearray_case(1000, FIT + 1, 4, 6));
-  bfs.push_back(largearray_case(FIT, 3 * FIT, 4, 6));
+  bfs.push_back(largearray_case(1000, FIT + 1, 4, 8));
+  bfs.push_back(largearray_case(FIT, 3 * FIT, 4, 8));
   return sx::sx_main(argc, argv, "C09", bfs, {});
 }
